@@ -95,6 +95,18 @@ def run(repo, res):
                   nontrivial=False)
     res.count('registered_regions', nreg, floor=800)
 
+    # ... and no child is handed to the visitor twice: what it registers (a lambda's scope, a comprehension variable, a walrus) would be
+    # registered - and, when never read, reported - twice
+    nvis = 0
+    for cls, r in sorted(R.double_visit_records(repo).items()):
+        nvis += r['n']
+        res.check('C10-R3', '%s visits no child twice' % R.method_name(repo, cls), not r['twice'], r['line'][0], r['line'][1],
+                  'on the shape `%s` the child %s of %s is visited twice on one path: every scope and binding created inside it (the '
+                  'parameters of a lambda, a comprehension variable, a walrus target) is registered twice and an unused one is reported '
+                  'twice with identical name, kind and position' % ((r['twice'] or [('', '')])[0][0], (r['twice'] or [('', '')])[0][1], cls),
+                  sample='%s: every child is visited at most once per path' % cls, nontrivial=False)
+    res.count('child_visits', nvis, floor=5000)
+
     # ---- R4 .used single writer -----------------------------------------------------------------------
     writers = []
     for rel, tree in repo.trees.items():
